@@ -621,8 +621,22 @@ func main() {
 			}
 			addDec(encoded{codec: "lzw", setting: fmt.Sprintf("litwidth=%d", lw), opts: fmt.Sprintf("lzw_litwidth=%d", lw), lw: lw, data: encLzw(q, lw)}, payload{p.class, q}, chunkOpt(tr))
 		}
+		// the Lean literal-only reference encoder (re-implemented in Go; `lzwenc` ties the two): Wuffs and the
+		// Lean spec decoder must both return the payload
+		if len(p.data) <= 20000 && (r.Thorough || pi%2 == 0) {
+			lw := []int{2, 3, 5, 8}[pi%4]
+			q := make([]byte, len(p.data))
+			for i, b := range p.data {
+				q[i] = b & byte(1<<uint(lw)-1)
+			}
+			enc := encLzwLiteral(q, lw)
+			jobs = append(jobs, func(w *worker) caseResult {
+				return caseResult{ops: []opLine{{fmt.Sprintf("lzwenc %d %s", lw, hlib.Hex(q)), hlib.Hex(enc)}}, counts: []string{"lzw-literal-encoder"}}
+			})
+			addDec(encoded{codec: "lzw", setting: fmt.Sprintf("literal-only litwidth=%d", lw), opts: fmt.Sprintf("lzw_litwidth=%d", lw), lw: lw, data: enc}, payload{p.class, q}, chunkOpt(tr))
+		}
 		// external tools
-		if r.Thorough || pi%2 == 1 || len(p.data) < 1000 {
+		if r.Thorough || pi%2 == 1 || len(p.data) < 1000 || p.class == "incompressible-40k" {
 			type tl struct {
 				codec, name string
 				args        []string
